@@ -844,6 +844,9 @@ class Interp:
         if isinstance(a, Obj) or isinstance(b, Obj):
             name = _DUNDER.get(op)
             if name is None:
+                h = self.world.extern_binop(self, op, a, b)
+                if h is not NotImplementedVal:
+                    return h
                 raise Unsupported('binop %s on objects' % op.__name__)
             if isinstance(a, Obj):
                 m = self.world.find_method(a.cls, '__%s__' % name)
@@ -1522,6 +1525,15 @@ class Interp:
             self.setattr(self.eval(target.value, env), target.attr, v)
         elif isinstance(target, ast.Subscript):
             c = self.eval(target.value, env)
+            if isinstance(target.slice, ast.Slice):
+                sl = target.slice
+                lo = self.eval(sl.lower, env) if sl.lower is not None else None
+                hi = self.eval(sl.upper, env) if sl.upper is not None else None
+                if sl.step is not None or not isinstance(c, list) or not all(x is None or isinstance(x, int) for x in (lo, hi)):
+                    raise Unsupported('slice assignment other than list[a:b] = ... with concrete bounds')
+                self.note_global_write(c)
+                c[lo:hi] = list(self.iterate(v))
+                return
             idx = self.eval(target.slice, env)
             self.setitem(c, idx, v)
         else:
